@@ -303,6 +303,16 @@ def reverse(ck, rng, orc, cap, i):
                 order = 'template-behind-other-attributes'
                 ck.count('reverse.ACQUIRE.template_not_first')
         extra_tail = gen.rb(rng, rng.choice([0, 0, 7, 64]))
+        if not trunc and rng.random() < 0.5:
+            # what follows the message in the same datagram is NOT part of it (nlmsg_len says where it ends): a second message, or octets shaped like one more
+            # template attribute with other values
+            import struct as _st2
+            other_tmpl = bytearray(64)
+            other_tmpl[40:42] = _st2.pack('=H', 10 if f['family'] == 2 else 2)
+            other_tmpl[24] = 51 if int(f['proto']) == 50 else 50
+            other_tmpl[50] = 1 - int(f['mode'])
+            extra_tail = rng.choice([_st2.pack('=HH', 68, 5) + bytes(other_tmpl), _st2.pack('=IHHII', 16 + 68, 0x17, 0, 0, 0) + _st2.pack('=HH', 68, 5) + bytes(other_tmpl)])
+            ck.count('reverse.ACQUIRE.followed_by_more_octets_in_the_datagram')
         case = {'kind': 'acquire', 'attribute_order': order, 'fields': {k: str(v_) for k, v_ in f.items()}, 'truncate': trunc, 'raw': msg + extra_tail}
         ck.count('reverse.ACQUIRE' + ('.truncated' if trunc else ''))
         ck.nontrivial(('acquire', v, vs, f['mode'], f['extra'], trunc))
